@@ -545,7 +545,33 @@ func isStderrPrint(ci ssa.CallInstruction) bool {
 		}
 		return false
 	}
-	return isStderr(ci.Common().Args[0], 0)
+	if isStderr(ci.Common().Args[0], 0) {
+		return true
+	}
+	// the same diagnostic written to a writer the caller configured, with its twin to os.Stderr in the same
+	// function (`if w != nil { fmt.Fprintf(w, format, args...); return }; fmt.Fprintf(os.Stderr, format, args...)`)
+	fn := ci.Parent()
+	if fn == nil {
+		return false
+	}
+	for _, other := range callsIn(fn) {
+		if other == ci || calleeObj(other) != o || len(other.Common().Args) != len(ci.Common().Args) {
+			continue
+		}
+		if !isStderr(other.Common().Args[0], 0) {
+			continue
+		}
+		same := true
+		for i := 1; i < len(ci.Common().Args); i++ {
+			if canon(ci.Common().Args[i]) != canon(other.Common().Args[i]) {
+				same = false
+			}
+		}
+		if same {
+			return true
+		}
+	}
+	return false
 }
 
 func ruleC12Illegal(c *Checker) {
